@@ -124,8 +124,10 @@ class Routes:
         self.entries = {}
         self.construct_errors = {}
         vs = M.variables(t)
-        vobj = smx.Variable(v)
-        single = len(vs) <= 1 and (not vs or v in vs)
+        name = v
+        vobj = smx.Variable(F.fresh_str(v))
+        v = F.fresh_str(v)      # an equal name that is a different, non-interned string object (built at run time)
+        single = len(vs) <= 1 and (not vs or name in vs)
 
         def fresh():
             return A.build(t, share)
@@ -693,6 +695,18 @@ def agreement_discrepancies(t, v, share, env, status, tol, routes=None, df_early
         if df_early is None:
             df_early = A.construct(lambda: Differential(A.build(t, share), compute_early=True))
         if df_early[0] == "ok" and b[0] == "ok":
+            # the same with a point that carries a coordinate the expression does not use
+            envx = {**env, EXTRA: 5}
+            bx = A.construct(lambda: LocatedDifferential(e2, pt(envx)))
+            cx = A.construct(lambda: df_early[1].at(pt(envx)))
+            ax = A.construct(lambda: Differential(e1).at(pt(envx)))
+            if bx[0] == "ok" and cx[0] == "ok" and ax[0] == "ok":
+                if not (cx[1] == bx[1]) or not (ax[1] == bx[1]) or repr(cx[1]) != repr(bx[1]) or repr(ax[1]) != repr(bx[1]) \
+                        or hash(cx[1]) != hash(bx[1]):
+                    bad.append("with an extra coordinate in the point: Differential(e[, early]).at(p) != LocatedDifferential(e, p)")
+            elif not (bx[0] == cx[0] == ax[0]):
+                bad.append(f"with an extra coordinate in the point: LocatedDifferential -> {bx[0]}, early Differential.at -> {cx[0]}, "
+                           f"late Differential.at -> {ax[0]}")
             c = A.construct(lambda: df_early[1].at(pt(env)))
             if c[0] == "ok":
                 if not (c[1] == b[1]) or not (b[1] == c[1]) or hash(c[1]) != hash(b[1]) or repr(c[1]) != repr(b[1]):
